@@ -7,6 +7,8 @@ Argument *specs* are plain data:
     ['t', x, y, ...]   a tuple of specs (never expanded, passed as one value)
     ['l', x, y, ...]   a Python list of specs (expanded)
     ['c', x, y, ...]   a channel list of specs (expanded exactly like a list)
+    ['k', x]           a channel list made from ONE non-list value x (a scalar
+                       or a tuple): a channel list of length one holding x
     ['o']              omitted (the callee's default fills the position)
 
 expand(args) -> tree
@@ -20,7 +22,7 @@ may itself be a list)."""
 
 
 def is_list(spec):
-    return spec[0] in ('l', 'c')
+    return spec[0] in ('l', 'c', 'k')
 
 
 def expand(args):
@@ -64,7 +66,7 @@ def atoms(spec, out=None):
     out = [] if out is None else out
     if spec[0] == 's':
         out.append(spec[1])
-    elif spec[0] in ('t', 'l', 'c'):
+    elif spec[0] in ('t', 'l', 'c', 'k'):
         for x in spec[1:]:
             atoms(x, out)
     return out
@@ -121,6 +123,13 @@ def selftest():
     # a channel list expands like a list; a one-element list still yields a
     # channel list of length one
     assert expand([['c', s(1)]]) == ['cl', [['call', [s(1)]]]]
+    # ChannelList(scalar) / ChannelList(tuple): one channel, the tuple opaque
+    assert expand([['k', ['t', s(1), s(2)]], ['l', s(3), s(4)]]) == \
+        ['cl', [['call', [['t', s(1), s(2)], s(3)]],
+                ['call', [['t', s(1), s(2)], s(4)]]]]
+    # wrap, not fold: lengths 4 and 3
+    t = expand([['l', s(0), s(1), s(2), s(3)], ['l', s(5), s(6), s(7)]])
+    assert calls(t)[3] == [s(3), s(5)]
     assert has_expansion([['l', ['l', s(1), s(2)]]])
     assert not has_expansion([['l', s(1)], ['t', s(1), s(2)]])
     # Out.ar(0, [a, 0]) : one unit, zero replaced by silence
